@@ -321,8 +321,84 @@ def _spec(case, rec):
         rec.check(not isinstance(r, Raised) and type(r) is S.ConvexPolyhedron, "extra_keys_ignored", sig, got=repr(r)[:80])
 
 
+GSD_TYPES = ["Sphere", "Ellipsoid", "Polygon", "ConvexPolyhedron", "Mesh", "sphere", "Polyhedron", "", None, 5, "mesh", "ConvexPolygon"]
+_TET = [[0.0, 0.0, 0.0], [1.0, 0.0, 0.0], [0.0, 1.0, 0.0], [0.0, 0.0, 1.0]]
+_TRI = [[0.0, 0.0, 0.0], [1.0, 0.0, 0.0], [0.0, 1.0, 0.0]]
+
+
+@st.composite
+def _gsd_fuzz_case(draw):
+    return {"type_index": draw(st.integers(0, len(GSD_TYPES))), "keys": draw(st.integers(0, 255)), "dims": draw(st.integers(2, 3)),
+            "vals": draw(st.lists(st.integers(0, 255), min_size=0, max_size=16))}
+
+
+def _gsd_fuzz(case, rec):
+    """Dispatch of from_gsd_type_shapes on arbitrary type strings and key subsets (also the atheris target)."""
+    ti, keys, dims, vals = case["type_index"], case["keys"], case["dims"], list(case["vals"]) + [0] * 16
+    spec = {}
+    if ti < len(GSD_TYPES):
+        spec["type"] = GSD_TYPES[ti]
+    num = lambda k: 0.25 + vals[k] / 64.0  # noqa: E731  (always positive)
+    if keys & 1:
+        spec["vertices"] = _TET if (keys & 128) else _TRI
+    if keys & 2:
+        spec["rounding_radius"] = vals[0] / 64.0
+    if keys & 4:
+        spec["diameter"] = num(1)
+    if keys & 8:
+        spec["a"] = num(2)
+    if keys & 16:
+        spec["b"] = num(3)
+    if keys & 32:
+        spec["c"] = num(4)
+    if keys & 64:
+        spec["indices"] = [[0, 2, 1], [0, 1, 3], [1, 2, 3], [0, 3, 2]]
+    t = spec.get("type", "<missing>")
+    r = call(coxeter.from_gsd_type_shapes, dict(spec), dims)
+    sig = {"type": repr(t)}
+    rec.concrete = {"spec": {k: (v if k != "vertices" else len(v)) for k, v in spec.items()}, "dims": dims}
+    valid_types = {"Sphere", "Ellipsoid", "Polygon", "ConvexPolyhedron", "Mesh"}
+    rec.nontrivial = True
+    try:
+        known = t in valid_types
+    except TypeError:
+        known = False
+    if not known:
+        rec.label("unknown_or_missing_type")
+        rec.check(isinstance(r, Raised) and r.type == "ValueError", "unknown_or_missing_type_raises_ValueError", sig, got=repr(r)[:100])
+        return
+    # which class must come out if all required keys are there
+    want = None
+    if t == "Sphere" and "diameter" in spec:
+        want = S.Circle if dims == 2 else S.Sphere
+    elif t == "Ellipsoid" and {"a", "b"} <= set(spec) and (dims == 2 or "c" in spec):
+        want = S.Ellipse if dims == 2 else S.Ellipsoid
+    elif t == "Polygon" and spec.get("vertices") is _TRI:
+        want = S.ConvexSpheropolygon if "rounding_radius" in spec else S.ConvexPolygon
+    elif t == "ConvexPolyhedron" and spec.get("vertices") is _TET:
+        want = S.ConvexSpheropolyhedron if "rounding_radius" in spec else S.ConvexPolyhedron
+    elif t == "Mesh" and spec.get("vertices") is _TET and "indices" in spec:
+        want = S.Polyhedron
+    if want is None:
+        rec.label("incomplete_spec")
+        rec.check(isinstance(r, Raised), "incomplete_spec_does_not_build_a_shape", dict(sig), got=repr(r)[:100]) if t in ("Sphere", "Mesh") else None
+        return
+    rec.label("complete_spec")
+    rec.check(not isinstance(r, Raised) and type(r) is want, "complete_spec_builds_dispatched_class", dict(sig, want=want.__name__),
+              got=repr(r)[:100], spec=rec.concrete)
+    if not isinstance(r, Raised) and "rounding_radius" in spec and isinstance(r, (S.ConvexSpheropolygon, S.ConvexSpheropolyhedron)):
+        rec.close("rounding_radius_kept", r.radius, spec["rounding_radius"], 0.0, sig)
+
+
+def fuzz_targets():
+    seeds = [bytes([0, 4, 1, 64]), bytes([3, 129, 0, 16]), bytes([4, 193, 1, 0]), bytes([12, 255, 0, 9])]
+    return [{"clause": "gsd_fuzz", "decoder": "gsd_dict", "runs_quick": 5000, "runs_thorough": 300000, "seeds": seeds, "max_len": 20}]
+
+
 def clauses():
     return [
+        Clause("gsd_fuzz", _gsd_fuzz_case(), _gsd_fuzz, quick=1500, thorough=30000, rule="type string x key subset x dimensions for from_gsd_type_shapes",
+               floors={"unknown_or_missing_type": 0.2, "complete_spec": 0.05}),
         Clause("roundtrips", _case(), _run, quick=1200, thorough=25000, rule="gsd / repr / to_json / to_hoomd of generated shapes",
                floors={"off_origin": 0.05, "zero_radius": 0.01, "hoomd": 0.4}),
         Clause("gsd_specs", _spec_case(), _spec, quick=400, thorough=6000, rule="hand-built GSD dicts incl. malformed ones", floors={}),
